@@ -182,7 +182,11 @@ func init() {
 			var ops []httpOp
 			ncreated := 0
 			ids := []string{"A", "B", "C"}
+			odd := []string{"%ff", "%c3%28", "a%00b", "%e2%82", "id%20with%20blank", strings.Repeat("L", 300)}
 			pick := func() string {
+				if rng.Intn(12) == 0 {
+					return odd[rng.Intn(len(odd))] // non-UTF-8, NUL, blanks, very long: unknown identifiers
+				}
 				if ncreated > 0 && rng.Intn(2) == 0 {
 					return fmt.Sprintf("$%d", rng.Intn(ncreated+1)) // may point one past: unknown id
 				}
@@ -361,7 +365,9 @@ func init() {
 					s += ":" + hx(string(body))
 				}
 				// C18: documented statuses, JSON error bodies, no foreign identifiers in this request's log lines
-				if r.Status != 200 && r.Status != 201 && r.Status != 400 && r.Status != 404 {
+				if r.Status == 599 {
+					o.Case("prop:http-no-panic", "differ:the handler panicked: "+short(string(body))+" on "+op.Op+" "+op.ID, fmt.Sprint(h), fmt.Sprint(i))
+				} else if r.Status != 200 && r.Status != 201 && r.Status != 400 && r.Status != 404 {
 					o.Case("prop:http-status-documented", fmt.Sprintf("differ:status %d for %s", r.Status, op.Op), fmt.Sprint(h), fmt.Sprint(i))
 				}
 				if r.Status == 400 {
